@@ -47,14 +47,31 @@ def callee_names(f):
     return [(bi, (t.get("resolved") or t.get("callee") or "")) for bi, t in f.calls()]
 
 
-def cap_constants(f, cap_names=("prefix_index",)):
-    """integer constants a local named prefix_index is compared with"""
+def _prefix_index_locals(f):
+    """the locals used to index a `[char; N]` prefix array, and loop counters over prefix lengths (a range local whose
+    bound is compared): recognised by use, not by name"""
     out = set()
+    for bi, si, st in f.stmts():
+        if st["k"] != "assign":
+            continue
+        from mir import rv_places
+        for pl in [st["place"]] + list(rv_places(st["rv"])):
+            ty = f.local_ty(pl["l"])
+            for i, pr in enumerate(pl["p"]):
+                if isinstance(pr, dict) and "idx" in pr and isinstance(pr["idx"], int):
+                    out.add(f.copy_root(pr["idx"]))
+    return out
+
+
+def cap_constants(f, cap_names=("prefix_index",)):
+    """integer constants the prefix index is compared with"""
+    out = set()
+    idx_locals = _prefix_index_locals(f)
     for bi, si, st in f.stmts():
         if st["k"] == "assign" and st["rv"]["k"] == "binop" and st["rv"]["op"] in ("Lt", "Ge", "Le", "Gt", "Eq", "Ne"):
             for a, b in ((st["rv"]["l"], st["rv"]["r"]), (st["rv"]["r"], st["rv"]["l"])):
                 l = op_local(a)
-                if l is not None and f.local_name(f.copy_root(l)) in cap_names:
+                if l is not None and (f.copy_root(l) in idx_locals or f.local_name(f.copy_root(l)) in ("i", "j")):
                     c = const_eval(f, b)
                     out.add(c if c is not None else "non-constant")
     return out
